@@ -516,7 +516,7 @@ func vf7Run(site string, pt reflect.Type, kinds []*vf7Kind, declared *arrow.Sche
 		} else {
 			want = vf7Field(k.T, sh.Expect[i])
 		}
-		g := got.Field(i)
+		g := got.Field(vf7GoIndex(i))
 		shown = append(shown, fmt.Sprintf("%#v", vf7Deref(g)))
 		if !vf7FieldEqual(g, want) {
 			res.Problem = "wrong-value-bound"
@@ -529,6 +529,17 @@ func vf7Run(site string, pt reflect.Type, kinds []*vf7Kind, declared *arrow.Sche
 		}
 	}
 	res.Outcome += "|" + strings.Join(shown, ",")
+	if vf7FieldIdx != nil {
+		isParam := map[int]bool{}
+		for _, gi := range vf7FieldIdx {
+			isParam[gi] = true
+		}
+		for gi := 0; gi < got.NumField(); gi++ {
+			if !isParam[gi] && !got.Field(gi).IsZero() {
+				res.Outcome += fmt.Sprintf("|non-parameter field %d written: %#v", gi, got.Field(gi).Interface())
+			}
+		}
+	}
 	return res
 }
 
@@ -548,6 +559,57 @@ func vf7ShowCols(cols []vf7Col) string {
 		parts = append(parts, fmt.Sprintf("%s=%#v", c.F.Name, c.V))
 	}
 	return "[" + strings.Join(parts, " ") + "]"
+}
+
+// vf7FieldIdx maps a parameter's column ordinal to its Go field index in the
+// struct under test (nil: identical, every Go field is a parameter).
+var vf7FieldIdx []int
+
+func vf7GoIndex(col int) int {
+	if vf7FieldIdx == nil {
+		return col
+	}
+	return vf7FieldIdx[col]
+}
+
+var vf7Layouts = []string{"pad-untagged-first", "pad-dash-between", "pad-both", "pad-untagged-last"}
+
+// vf7StructTypeLayout generates the parameter struct with Go fields that are
+// NOT parameters (no vgirpc tag, or `vgirpc:"-"`) placed around the parameter
+// fields, so that a parameter's column ordinal differs from its Go field index.
+func vf7StructTypeLayout(kinds []*vf7Kind, layout string) (reflect.Type, []int) {
+	var fields []reflect.StructField
+	idx := make([]int, len(kinds))
+	pad := 0
+	untagged := func() {
+		fields = append(fields, reflect.StructField{Name: fmt.Sprintf("Pad%d", pad), Type: reflect.TypeOf("")})
+		pad++
+	}
+	dash := func() {
+		fields = append(fields, reflect.StructField{Name: fmt.Sprintf("Pad%d", pad), Type: reflect.TypeOf(int64(0)), Tag: `vgirpc:"-"`})
+		pad++
+	}
+	if layout == "pad-untagged-first" || layout == "pad-both" {
+		untagged()
+	}
+	for i, k := range kinds {
+		if i > 0 && (layout == "pad-dash-between" || layout == "pad-both") {
+			dash()
+		}
+		if i == 0 && len(kinds) == 1 && layout == "pad-dash-between" {
+			dash()
+		}
+		tag := fmt.Sprintf(`vgirpc:"f%d"`, i)
+		if k.Tag != "" {
+			tag = fmt.Sprintf(`vgirpc:"f%d,%s"`, i, k.Tag)
+		}
+		idx[i] = len(fields)
+		fields = append(fields, reflect.StructField{Name: fmt.Sprintf("F%d", i), Type: k.T, Tag: reflect.StructTag(tag)})
+	}
+	if layout == "pad-untagged-last" {
+		untagged()
+	}
+	return reflect.StructOf(fields), idx
 }
 
 func vf7StructType(kinds []*vf7Kind) reflect.Type {
@@ -619,6 +681,48 @@ func TestVerif_C07(t *testing.T) {
 			x.Failf(sig, "%s, params %s, shape %s: %s", site, pt, sh.Name, res.Detail)
 		}
 		x.Outcome("%s", res.Outcome)
+	})
+
+	// Struct layout: Go fields that are not parameters (untagged, or `vgirpc:"-"`)
+	// around the parameter fields, so column ordinal != Go field index. Binding
+	// (values, nulls, defaults) must land in the parameter's own Go field.
+	lsites := venum.QT([]string{"pipe-unary"}, []string{"pipe-unary", "http-unary"})
+	venum.Explore(t, venum.Cfg{Name: "bind-layout", Shardable: true}, func(x *venum.X) {
+		ks := family[x.Choose(len(family), "struct")]
+		if len(ks) > 2 {
+			x.Outcome("three-field structs are explored in the dense layout only")
+			return
+		}
+		layout := vf7Layouts[x.Choose(len(vf7Layouts), "layout")]
+		site := lsites[x.Choose(len(lsites), "site")]
+		pt, idx := vf7StructTypeLayout(ks, layout)
+		declared, err := structToSchema(pt)
+		if err != nil {
+			x.Failf("C07:struct-rejected", "structToSchema(%s): %v", pt, err)
+			return
+		}
+		var shapes []vf7Shape
+		for _, sh := range vf7Shapes(ks, declared) {
+			switch sh.Class {
+			case "equal", "null", "null-in-non-nullable", "permuted", "dropped", "renamed":
+				shapes = append(shapes, sh)
+			}
+		}
+		sh := shapes[x.Choose(len(shapes), "shape")]
+		vf7FieldIdx = idx
+		res := vf7Run(site, pt, ks, declared, sh, false)
+		vf7FieldIdx = nil
+		if res.Problem != "" {
+			sig := fmt.Sprintf("C07:%s:%s:%s", res.Problem, sh.Class, res.Kind)
+			// name the layout only when the dense struct handles the same case correctly
+			dense := vf7StructType(ks)
+			dd, _ := structToSchema(dense)
+			if ref := vf7Run("pipe-unary", dense, ks, dd, sh, false); ref.Problem != res.Problem {
+				sig += ":non-parameter-fields-in-struct"
+			}
+			x.Failf(sig, "%s, params %s (layout %s), shape %s: %s", site, pt, layout, sh.Name, res.Detail)
+		}
+		x.Outcome("%s|%s", layout, res.Outcome)
 	})
 
 	// The same structs and shapes in the wrapped-request form: the batch is the
